@@ -902,6 +902,9 @@ axiom('nfax', 'lemma', 'NS-union', ForAll([_V, _e, _S, _T, _w], NS(_V, _e, U(_S,
 axiom('nfax', 'lemma', 'NS-empty', ForAll([_V, _e, _w], NS(_V, _e, EMPTYA, _w) == EMPTYA))
 axiom('nfax', 'lemma', 'eclo-move-pw', ForAll([_V, _e, _S, _a, _x], Select(Eclo(_V, _e, move(_V, _S, _a)), _x) ==
       z3.Exists([_y, _q], And(Select(_S, _q), Select(Select(_V, mkKey2(_q, _a)), _y), Select(Eclo(_V, _e, single(_y)), _x)))))
+axiom('nfax', 'lemma', 'Nhat-step-pw', ForAll([_V, _e, _q, _w, _a, _y], Select(Nhat(_V, _e, _q, Word.snoc(_w, _a)), _y) ==
+      z3.Exists([_x], And(Select(Nhat(_V, _e, _q, _w), _x), Select(Eclo(_V, _e, Select(_V, mkKey2(_x, _a))), _y)))))
+axiom('nfax', 'lemma', 'Nhat-closed', ForAll([_V, _e, _q, _w, _x, _y], Implies(And(Select(Nhat(_V, _e, _q, _w), _x), Select(Eclo(_V, _e, single(_x)), _y)), Select(Nhat(_V, _e, _q, _w), _y))))
 axiom('nfax', 'lemma', 'NS-closed', ForAll([_V, _e, _S, _w], Eclo(_V, _e, NS(_V, _e, _S, _w)) == NS(_V, _e, _S, _w)))
 
 _VR, _VN = Consts('VR VN', ViewN); _eR, _eN = Consts('eR eN', Atom); _Qs, _Sg = Consts('Qs Sg', SetA)
